@@ -39,7 +39,13 @@ def c20():
     return [tables.Tables()]
 
 
+def c15():
+    from harness import reader
+    return [reader.ReaderLocs()]
+
+
 REGISTRY = {
+    'C15': dict(harnesses=c15, run=_runner('C15', c15)),
     'C20': dict(harnesses=c20, run=_runner('C20', c20)),
     'C07': dict(harnesses=c07, run=_runner('C07', c07)),
     'C06': dict(harnesses=c06, run=_runner('C06', c06)),
